@@ -106,14 +106,17 @@ Definition parse_int_or_name (x : string) : res intarg :=
 
 (* ---------------------------------------------------------------- tokenizer: _split_instruction_into_tokens *)
 (* state machine over the stripped line; mirrors the while-loop: [cur] is line[start:i] reversed *)
-Fixpoint tok_string (fuel : nat) (s : string) (cur : string) (prev : ascii) : option (string * string) :=
-  (* inside a quoted literal that started a token: scan to the closing quote not preceded by a backslash *)
+Fixpoint tok_string (fuel : nat) (s : string) (cur : string) (esc : bool) : option (string * string) :=
+  (* inside a quoted literal that started a token: scan to the closing quote; a backslash escapes the character
+     after it ([esc] = the previous character was an unescaped backslash), so `\"` does not close the literal and
+     `\\"` does *)
   match s with
   | EmptyString => None
   | String c t =>
-      if (Ascii.eqb c """"%char && negb (Ascii.eqb prev "\"%char))%bool
-      then Some (rev_string (String c cur), t)
-      else tok_string fuel t (String c cur) c
+      if esc then tok_string fuel t (String c cur) false
+      else if Ascii.eqb c "\"%char then tok_string fuel t (String c cur) true
+      else if Ascii.eqb c """"%char then Some (rev_string (String c cur), t)
+      else tok_string fuel t (String c cur) false
   end.
 
 Fixpoint tokenize_acc (fuel : nat) (s : string) (cur : string) : res (list string) :=
@@ -131,7 +134,7 @@ Fixpoint tokenize_acc (fuel : nat) (s : string) (cur : string) : res (list strin
           else if Ascii.eqb c """"%char then
             match cur with
             | EmptyString =>
-                match tok_string f t (String c "") c with
+                match tok_string f t (String c "") false with
                 | Some (tokn, rest) => do r <- tokenize_acc f rest ""; Ok (tokn :: r)
                 | None => Err "ParseError: missing closing quote"
                 end
